@@ -127,11 +127,28 @@ def run(prog, rep):
     eng = terms.Engine(prog, inline=True, hooks=E.Hooks([UTILS], opaque_names=[VALIDATE]))
     nz = norm.Normalizer()
 
+    def strip_prop(t):
+        """Drop the exits that merely propagate the error of a recursive call (`rec(..)?`)."""
+        if t[0] == "ite":
+            a, b = strip_prop(t[2]), strip_prop(t[3])
+            pa = a[0] == "ctor" and str(a[1]).rsplit("::", 1)[-1] == "Err" and a[2] and a[2][0][0] == "proj" and str(a[2][0][2]).rsplit("::", 1)[-1] == "Err" \
+                and a[2][0][1][0] in ("call", "rec")
+            pb = b[0] == "ctor" and str(b[1]).rsplit("::", 1)[-1] == "Err" and b[2] and b[2][0][0] == "proj" and str(b[2][0][2]).rsplit("::", 1)[-1] == "Err" \
+                and b[2][0][1][0] in ("call", "rec")
+            if pa and not pb:
+                return b
+            if pb and not pa:
+                return a
+            return ("ite", t[1], a, b)
+        return t
+
     def spec(shape):
         s = eng.specialise(f, {pn[0]: E.node_term(shape)})
         if s is None:
             return None, None
-        return s, nz(partial.simplify(s.ret))
+        # the full value: exits taken by `?` included (a check delegated to a helper that is called with `?` is still a check)
+        full = getattr(s, "ret_full", None) or s.ret
+        return s, nz(strip_prop(nz(partial.simplify(full))))
 
     def report(key, good, detail_ok, detail_bad):
         rep.check(good, "C07-R1", key, where, detail_ok, detail_bad)
